@@ -31,6 +31,7 @@ func runC21(c *Ctx) {
 	w := c.W
 	timeZoneRules(c)
 	c21Extras(c)
+	bigIntCopyRule(c, "cryptobyte/asn1.go", "cryptobyte/builder.go", "cryptobyte/string.go")
 	// ---- optional readers: at most one consuming call on the receiver
 	consuming := map[string]bool{}
 	for _, n := range []string{"read", "Skip", "ReadUint8", "ReadUint16", "ReadUint24", "ReadUint32", "readUnsigned", "readLengthPrefixed", "ReadUint8LengthPrefixed", "ReadUint16LengthPrefixed",
